@@ -1,8 +1,20 @@
 #!/bin/bash
-# tryseed.sh <ID> <patch.diff> [tier]: apply to /repo, run the check, always revert
+# tryseed.sh <ID> <patch.diff> [tier]: run the check against /repo + patch, never leave the patch behind.
+# Default: apply to /repo, check, always revert. TRY_VIA=worktree: scratch worktree of /repo with the
+# patch applied and a private copy of /verif (for use while something else is reading /repo).
 ID=$1; P=$2; T=${3:-quick}
-git -C /repo status --short | grep -q . && { echo "/repo not clean"; exit 3; }
-git -C /repo apply "$P" || { echo "patch does not apply"; exit 3; }
-cd /verif && bin/verifctl check $ID --tier $T > /tmp/try.$ID.out 2>&1; RC=$?
-git -C /repo checkout -q -- .
+if [ "${TRY_VIA:-repo}" = worktree ]; then
+  N=$(basename "$(dirname "$P")")-$$
+  CR=/tmp/tryseed/$N-repo; CV=/tmp/tryseed/$N-verif; mkdir -p /tmp/tryseed
+  git -C /repo worktree add -q "$CR" HEAD || exit 3
+  trap 'git -C /repo worktree remove --force "$CR" 2>/dev/null; rm -rf "$CR" "$CV"; git -C /repo worktree prune' EXIT
+  git -C "$CR" apply "$P" || { echo "patch does not apply"; exit 3; }
+  mkdir -p "$CV"; rsync -a --exclude .git --exclude .work --exclude replays --exclude seeded /verif/ "$CV/"
+  ( cd "$CV" && VERIF_DIR="$CV" VERIF_REPO="$CR" timeout ${TRY_TIMEOUT:-2400} bin/verifctl check $ID --tier $T ) > /tmp/try.$ID.out 2>&1; RC=$?
+else
+  git -C /repo status --short | grep -q . && { echo "/repo not clean"; exit 3; }
+  git -C /repo apply "$P" || { echo "patch does not apply"; exit 3; }
+  cd /verif && timeout ${TRY_TIMEOUT:-2400} bin/verifctl check $ID --tier $T > /tmp/try.$ID.out 2>&1; RC=$?
+  git -C /repo checkout -q -- .
+fi
 echo "TRY $ID: exit $RC $(grep -o 'signature="[^"]*"' /tmp/try.$ID.out | sort -u | head -4 | tr '\n' ' ')"; grep MACHINERY /tmp/try.$ID.out | head -2
